@@ -105,6 +105,27 @@ func (n *Node) isNil(p int) bool { return n.NilMod > 0 && mod(p, n.NilMod) == mo
 
 type builder struct {
 	sources [][2][]int // (slice handed to FromSlice, private copy)
+	evals   int        // number of user-function evaluations (predicates, mappings, join bodies) so far
+}
+
+func (b *builder) predS(n *Node) func(int) bool {
+	f := predS(n)
+	return func(x int) bool { b.evals++; return f(x) }
+}
+
+func (b *builder) mapS(n *Node) func(int) int {
+	f := mapS(n)
+	return func(x int) int { b.evals++; return f(x) }
+}
+
+func (b *builder) predP(n *Node) func(int, int) bool {
+	f := predP(n)
+	return func(k, v int) bool { b.evals++; return f(k, v) }
+}
+
+func (b *builder) mapP(n *Node) func(int, int) int {
+	f := mapP(n)
+	return func(k, v int) int { b.evals++; return f(k, v) }
 }
 
 func (b *builder) S(n *Node, shift int) seq.Seq[int] {
@@ -125,17 +146,18 @@ func (b *builder) S(n *Node, shift int) seq.Seq[int] {
 	case "from":
 		return seq.From(n.Xs[0] + shift)
 	case "takeWhile":
-		return seq.TakeWhile(b.S(n.L, shift), predS(n))
+		return seq.TakeWhile(b.S(n.L, shift), b.predS(n))
 	case "dropWhile":
-		return seq.DropWhile(b.S(n.L, shift), predS(n))
+		return seq.DropWhile(b.S(n.L, shift), b.predS(n))
 	case "filter":
-		return seq.Filter(b.S(n.L, shift), predS(n))
+		return seq.Filter(b.S(n.L, shift), b.predS(n))
 	case "map":
-		return seq.Map(b.S(n.L, shift), mapS(n))
+		return seq.Map(b.S(n.L, shift), b.mapS(n))
 	case "plus":
 		return seq.Plus(b.S(n.L, shift), b.S(n.R, shift))
 	case "join":
 		return seq.Join(b.S(n.L, shift), func(x int) seq.Seq[int] {
+			b.evals++
 			if n.isNil(x) {
 				return nil
 			}
@@ -143,6 +165,7 @@ func (b *builder) S(n *Node, shift int) seq.Seq[int] {
 		})
 	case "toSeq":
 		return pair.ToSeq(b.P(n.L, shift), func(k, v int) seq.Seq[int] {
+			b.evals++
 			if n.isNil(k - v) {
 				return nil
 			}
@@ -159,17 +182,18 @@ func (b *builder) P(n *Node, shift int) pair.Seq[int, int] {
 	case "pfrom":
 		return pair.From(n.Xs[0]+shift, n.Xs[1]+shift)
 	case "ptakeWhile":
-		return pair.TakeWhile(b.P(n.L, shift), predP(n))
+		return pair.TakeWhile(b.P(n.L, shift), b.predP(n))
 	case "pdropWhile":
-		return pair.DropWhile(b.P(n.L, shift), predP(n))
+		return pair.DropWhile(b.P(n.L, shift), b.predP(n))
 	case "pfilter":
-		return pair.Filter(b.P(n.L, shift), predP(n))
+		return pair.Filter(b.P(n.L, shift), b.predP(n))
 	case "pmap":
-		return pair.Map(b.P(n.L, shift), mapP(n))
+		return pair.Map(b.P(n.L, shift), b.mapP(n))
 	case "pplus":
 		return pair.Plus(b.P(n.L, shift), b.P(n.R, shift))
 	case "pjoin":
 		return pair.Join(b.P(n.L, shift), func(k, v int) pair.Seq[int, int] {
+			b.evals++
 			if n.isNil(k - v) {
 				return nil
 			}
@@ -177,6 +201,7 @@ func (b *builder) P(n *Node, shift int) pair.Seq[int, int] {
 		})
 	case "fromSeq":
 		return pair.FromSeq(b.S(n.L, shift), func(x int) pair.Seq[int, int] {
+			b.evals++
 			if n.isNil(x) {
 				return nil
 			}
